@@ -40,19 +40,21 @@ var heimdallType = map[string]string{
 	// jwtmd: a jwt authenticator that finds its key set through a metadata endpoint whose URL is a template over the
 	// issuer named by the (not yet verified) token; used in a family of chains of its own, never together with "jwt"
 	"jwtmd": "jwt",
-	"jwt": "jwt", "basic": "basic_auth", "generic": "generic", "oauth2": "oauth2_introspection",
+	"jwt":   "jwt", "basic": "basic_auth", "generic": "generic", "oauth2": "oauth2_introspection",
 	"anon": "anonymous", "unauth": "unauthorized",
 }
 
 // subject id each authenticator produces when it succeeds (pairwise distinct).
 var subjectOf = map[string]string{
 	"jwtmd": "jwt-user",
-	"jwt": "jwt-user", "basic": "alice", "generic": "generic-user", "oauth2": "oauth2-user", "anon": "anon-user",
+	"jwt":   "jwt-user", "basic": "alice", "generic": "generic-user", "oauth2": "oauth2-user", "anon": "anon-user",
 }
 
 var remoteOf = map[string]string{"jwtmd": hostJWKS, "jwt": hostJWKS, "generic": hostIDP, "oauth2": hostIntro}
 
-func flaggable(t string) bool { return t == "jwtmd" || t == "jwt" || t == "basic" || t == "generic" || t == "oauth2" }
+func flaggable(t string) bool {
+	return t == "jwtmd" || t == "jwt" || t == "basic" || t == "generic" || t == "oauth2"
+}
 
 func typeOfID(id string) string { return strings.TrimSuffix(id, "_fb") }
 
@@ -67,8 +69,8 @@ func catalogue() *config.MechanismPrototypes {
 			"metadata_endpoint": map[string]any{
 				"url": "http://" + hostMD + "/meta?iss={{ .TokenIssuer }}", "disable_issuer_identifier_verification": true,
 			},
-			"assertions":        map[string]any{"audience": []any{audience}},
-			"cache_ttl":         "0s",
+			"assertions": map[string]any{"audience": []any{audience}},
+			"cache_ttl":  "0s",
 		},
 		"basic": {"user_id": "alice", "password": "secret"},
 		"generic": {
@@ -77,6 +79,7 @@ func catalogue() *config.MechanismPrototypes {
 			"authentication_data_source": []any{
 				map[string]any{"header": sessionHeader},
 				map[string]any{"query_parameter": "session"},
+				map[string]any{"cookie": "session"},
 			},
 			"subject":          map[string]any{"id": "id"},
 			"session_lifespan": map[string]any{"active": "active"},
